@@ -185,6 +185,7 @@ def run_property(mod, tier: str, seed: int) -> int:
     cfg = dict(mod.TIERS[tier])
     nshards = int(cfg.get("shards", getattr(mod, "NSHARDS", 16)))
     budget = float(cfg.get("budget_s", 120 if tier == "quick" else 1500))
+    budget *= float(os.environ.get("VERIF_BUDGET_SCALE", "1"))   # development aid for a loaded machine; never set by registered commands
     deadline = time.monotonic() + budget
     known = load_known()
     out_lines: list[str] = []
